@@ -171,6 +171,10 @@ def rewitness(snap: Snapshot, wits, frozen=(), first_new=0):
                 i = j + 1
                 continue
         a, b, c, d = wires
+        # is-zero pattern: product = diff * inverse with `inverse` a fresh free witness
+        if (qar == 1 and qm == 1 and ql == 0 and qr == 0 and qo == R - 1 and b >= first_new and b not in seen
+                and b not in frozen and b not in (a, c, d) and a in seen):
+            w[b] = pow(w[a], R - 2, R) if w[a] else 0
         if qar and qo and c >= first_new and c not in seen and c not in (a, b, d) and c not in frozen and not any(sel[7:]):
             x = (qm * w[a] * w[b] + ql * w[a] + qr * w[b] + qf * w[d] + qc + snap.pis.get(i, 0)) % R
             w[c] = (-x * pow(qo, R - 2, R)) % R
